@@ -242,6 +242,9 @@ CHECKS["C09"]["text"] += " Many-hints sweep: one IA_PD with 63/64/65/70 hints ob
 CHECKS["C08"]["text"] += " Many-hints sweep as in C09."
 CHECKS["C18"]["text"] += " Ports with leading zeros are decimal; 0x/0b/0o/underscore spellings are unparseable."
 CHECKS["C19"]["text"] += " Search-domain labels with multi-byte characters around the 63-octet limit are among the configuration atoms."
+# ---- additions of seed round 16
+CHECKS["C11"]["text"] += " Malformed message types: option 53 of 0, 2 or 3 octets and repeated instances (12 shapes x position) under every chain are never answered."
+CHECKS["C13"]["text"] += " Eighth handler behaviour: a nil response without stop (the chain goes on; a later handler may build a fresh response, which is then what is sent)."
 ALL = ["C%02d" % i for i in range(1, 21)]
 NA_REASON = "check not built yet in this session (planned, see DESIGN.md section 5); will be claimed once its machinery exists"
 m = {
